@@ -31,6 +31,12 @@ def Err.str : Err → String
   | .nsMissing => "nsmissing"
   | .optOut => "optout"
 
+instance {ε α : Type} [DecidableEq ε] [DecidableEq α] : DecidableEq (Except ε α)
+  | .ok a, .ok b => if h : a = b then isTrue (by rw [h]) else isFalse (by intro e; cases e; exact h rfl)
+  | .error a, .error b => if h : a = b then isTrue (by rw [h]) else isFalse (by intro e; cases e; exact h rfl)
+  | .ok _, .error _ => isFalse (by intro e; cases e)
+  | .error _, .ok _ => isFalse (by intro e; cases e)
+
 /-- `dnsname.CanonicalCompare` (on unfolded input). -/
 def canonicalCompare (a b : Name) : Ordering := cmpName (foldName a) (foldName b)
 
@@ -162,11 +168,15 @@ inductive NState
   | exact | ent | absent
 deriving Repr, DecidableEq
 
+/-- the second test of `aggressiveNSECClassifyInterval`: `name` is at or past
+NextDomain (normal span), resp. not below NextDomain (wrap-around span). -/
+def beyondNext (name : Name) (r : Nsec) : Bool :=
+  if cmpName r.next r.owner = .gt then cmpName name r.next != .lt else !nameInZone name r.next
+
 /-- `aggressiveNSECClassifyInterval` (RFC 8198 Appendix B): `none` = not covered. -/
 def classifyInterval (name : Name) (r : Nsec) : Option NState :=
   if cmpName name r.owner != .gt || name == r.next then none
-  else if (if cmpName r.next r.owner = .gt then cmpName name r.next != .lt
-           else !nameInZone name r.next) then none
+  else if beyondNext name r then none
   else if isStrictSub r.next name then some .ent
   else some .absent
 
